@@ -8,17 +8,23 @@ import loopsim
 MANIFEST = {
  "text": "Lean 4 theorems over an executable model of the loop accounting (the uv__handle_start/stop/ref/unref, "
          "uv__req_register/unregister macros as stand-alone kernels; uv_close / uv__finish_close / uv__loop_alive / uv_run / "
-         "uv_loop_close for timer, idle, prepare, check, async, poll, tcp, udp, pipe, signal, fs_event handles and work / udp-send "
-         "requests, callbacks as arbitrary scripts): active_handles = |active & ref & !closing| and active_reqs = |requests owed a "
+         "uv_loop_close for timer, idle, prepare, check, async, poll, tcp, udp, pipe, signal, fs_event handles and work / fs (thread-pool and io_uring route) / "
+         "getaddrinfo / getnameinfo / random / udp-send / deferred-connect requests incl. uv_cancel on each, callbacks as arbitrary scripts): active_handles = |active & ref & !closing| and active_reqs = |requests owed a "
          "callback| at every API boundary, uv_loop_alive <-> the documented condition, uv_run's return value, uv_loop_close busy "
          "test, ref/unref idempotence.  Also proved: reqs_inv (partition invariant over every program), run_returns with its exact exception, and that the literal alive <-> documented-condition equivalence is false of the code in three narrow situations (Lean witnesses = the three listed known findings) with the corrected boundary theorems alive_iff_boundary / alive_iff_documented; the macro and loop kernels are regenerated from /repo on every run and proved equal to the model kernels (UvModel.GenEq).  The model is tied to the working tree by running generated programs (ops from main and "
          "from inside every callback, three run modes, UV_METRICS_IDLE_TIME on/off) on the real library under a virtual clock and "
          "a deterministic poller and diffing every return value, callback and observation against the model; independent "
          "monitors evaluate the property's own formula on the implementation log, with ASan/LSan and an fd-table check.",
  "note": "Trusted: Lean kernel; the simulator's interposition (clock_gettime, epoll_pwait, thread-pool completions gated to "
-         "poll time, pool size 1); clang sanitizers. Passive handle kinds are exercised through init/start/stop/close only "
-         "(no traffic); process, tty, fs_poll handles and stream/fs/getaddrinfo requests are outside the model (covered by "
-         "C05-C07, C11-C13, C17). Inside the closing phase uv_loop_alive() ignores the batch being delivered (documented as an "
+         "poll time, pool size 1); clang sanitizers. Passive handle kinds other than poll are exercised through init/start/stop/close only "
+         "(poll handles get readable / writable / EPOLLERR traffic); process, tty, fs_poll handles and stream write/shutdown requests "
+         "are outside the model (monitor-only programs; covered by C05-C07, C12, C17).  Request kinds: uv_fs_* (open, close, read, write "
+         "with buffer counts around IOV_MAX, stat, failing variants) through the thread pool and, on a loop configured with "
+         "UV_LOOP_USE_IO_URING_SQPOLL, through the io_uring ring (completion-queue order is an input), numeric uv_getaddrinfo / "
+         "uv_getnameinfo (submitted to an idle pool only: the pool's separate slow-I/O queue is C08's subject), uv_random; only "
+         "uv_queue_work's work_cb is held until poll time, other work finishes as soon as the single worker reaches it; the "
+         "result value of an fs operation is not modelled (status 0 / UV_ECANCELED / UV_EAI_CANCELED is); the io_uring "
+         "EOPNOTSUPP retry path and a full submission ring are not exercised. Inside the closing phase uv_loop_alive() ignores the batch being delivered (documented as an "
          "interpretation; witness theorem alive_in_close_phase_witness).",
  "design": "DESIGN.md §3 C01",
 }
